@@ -398,6 +398,20 @@ fn c02(sim: &mut Sim, d: &Delivery) -> u64 {
     if d.buf.is_empty() {
         sim.stats.probe("empty_buffer_delivered");
     }
+    for el in &r {
+        match el {
+            NetflowPacket::V9(x) => {
+                if x.flowsets.iter().any(|f| f.header.length < 4) {
+                    sim.stats.probe("v9_flowset_length_below_4_accepted");
+                }
+                if usize::from(x.header.count) > x.flowsets.len() {
+                    sim.stats.probe("v9_count_exceeds_flowsets");
+                }
+            }
+            NetflowPacket::IPFix(x) if x.header.length < 16 => sim.stats.probe("ipfix_length_below_16_accepted"),
+            _ => {}
+        }
+    }
     if d.buf.len() == 1 {
         sim.stats.probe("one_byte_buffer_delivered");
     }
